@@ -2,4 +2,6 @@ import Preflate.Props.C02
 #print axioms Preflate.hops_inv
 #print axioms Preflate.decTree_encTree
 #print axioms Preflate.decStream_encStream
+#print axioms Preflate.parse_valid
+#print axioms Preflate.recompress_analyze
 #print axioms Preflate.context_numbers_match_source
